@@ -60,6 +60,18 @@ func ConfTag(c *sdl.Conf) string {
 		key, val = "value", "#{${"+c.Keys[0]+"}}"
 	case "sumDef":
 		key, val = "value", "#{${"+c.Keys[0]+":"+c.Default+"}+${"+c.Keys[1]+"}}"
+	case "cmp":
+		key, val = "value", "#{${"+c.Keys[0]+"} > ${"+c.Keys[1]+"}}"
+	case "tern":
+		key, val = "value", "#{${"+c.Keys[0]+"} > 3 ? ${"+c.Keys[1]+"} : ${"+c.Keys[2]+"}}"
+	case "concat":
+		key, val = "value", "#{'${"+c.Keys[0]+"}' + '${"+c.Keys[1]+"}'}"
+	case "affine":
+		key, val = "value", "#{${"+c.Keys[0]+"}*${"+c.Keys[1]+"}+${"+c.Keys[2]+"}}"
+	case "and":
+		key, val = "value", "#{${"+c.Keys[0]+"} == "+c.Default+" && '${"+c.Keys[1]+"}' == 'va'}"
+	case "mod":
+		key, val = "value", "#{${"+c.Keys[0]+"} % 3}"
 	case "sumDef2":
 		key, val = "value", "#{${"+c.Keys[0]+":"+c.Default+"}+${"+c.Keys[1]+":"+c.Default2+"}}"
 	case "prefixInt", "prefixStr", "prefixStruct", "prefixStructV":
